@@ -295,7 +295,7 @@ def run(ctx):
                               f'{exc} raised by `{short(call) if call is not None else "a callee"}` escapes {F}: the call raises instead of returning whether the worker is dead '
                               '(e.g. the child ended between the liveness check and the request)', where=loc(f, call) if call is not None else loc(f, f.node))
     # the dead cache may only be set under evidence, wherever it is set (not only in wait/terminate/is_alive)
-    done = {f.qualname for _, f, _, _ in us}
+    done = {f.qualname for _, f, _, _ in us if f.name in ('wait', 'terminate', 'is_alive')}
     for name in PUBLIC:
         cls = P.cls(name)
         for c in cls.mro():
@@ -348,6 +348,12 @@ def endpoint_get_honours_timeout(ctx):
                 t, neg = t.operand, True
             if isinstance(t, ast.Call) and last_attr(t) == 'poll' and t.args and 'timeout' in names_in(t.args[0]):
                 good |= {e.dst.id for e in n.succ if e.kind == ('false' if neg else 'true')}
+            # `timeout is not None and not poll(timeout)` guarding a raise: the false side has polled (whenever a timeout was given)
+            if isinstance(t, ast.BoolOp) and isinstance(t.op, ast.And) and not neg and any(isinstance(x, (ast.Raise, ast.Return)) for x in n.stmt.body):
+                for v in t.values:
+                    if isinstance(v, ast.UnaryOp) and isinstance(v.op, ast.Not) and isinstance(v.operand, ast.Call) and last_attr(v.operand) == 'poll' \
+                            and v.operand.args and 'timeout' in names_in(v.operand.args[0]):
+                        good |= {e.dst.id for e in n.succ if e.kind == 'false'}
     recvs = [n for n in g.nodes if n.stmt is not None and n.part == 'eval' and any(last_attr(c) == 'recv' for c in n.calls())]
     dom = g.dominators(edge_ok=is_flow)
     return bool(recvs) and bool(good) and all(dom.get(n.id, set()) & good for n in recvs)
